@@ -176,4 +176,6 @@ def near_miss_spellings(pid, name=''):
     if name:
         out += [name.upper() if name.upper() != name else name.lower(), name + ' ', ' ' + name, name[:-1], name + 'x',
                 name[1:], name.swapcase(), name + '\x00']
+        # cut where a kernel structure would cut it (p_comm: 16 bytes, the thread map: 20) or a column would
+        out += [name[:k] for k in (1, 2, 4, 8, 15, 16, 17, 19, 20, 31, 32) if k < len(name)] + [name[-16:], name[-8:]]
     return [x for x in out if x != p and x != name]
